@@ -61,6 +61,7 @@ const (
 	FindErrexitNeg = "C26-errexit-under-negation"
 	FindErrexitSub = "C26-errexit-ignored-context-lost-in-subshell"
 	FindErrTrapRep = "C26-err-trap-repeated"
+	FindForVarRet  = "C26-for-continues-after-return"
 )
 
 // ---------------------------------------------------------------------------
@@ -331,6 +332,7 @@ type g struct {
 
 	depth    int  // nesting depth of compound commands
 	loops    int  // loops enclosing in the same shell context and function body
+	inFor    int  // for loops among them (finding: they go on after return/exit)
 	inFunc   bool // inside a function body
 	inPipe   int  // inside a pipeline stage: no file writes, no >&2
 	inSubst  int  // inside $( ): no here-documents
@@ -653,8 +655,9 @@ func (g *g) cmdSubst() string {
 	g.inSubst++
 	g.inSub++
 	g.depth++
-	savedLoops, savedPure := g.loops, g.pure
-	g.loops, g.pure = 0, 0
+	savedLoops, savedPure, savedFor := g.loops, g.pure, g.inFor
+	g.loops, g.pure, g.inFor = 0, 0, 0
+	defer func() { g.inFor = savedFor }()
 	var body list
 	if g.o.Simp && g.pct(40, "substsub") {
 		// $( (cmd) ): duplicate subshell
@@ -1065,7 +1068,9 @@ func (g *g) forIn() node {
 		n--
 		items = []string{"p", "q", "r", "s"}[:n]
 	}
+	g.inFor++
 	body := g.loopBody(n)
+	g.inFor--
 	return loop{head: "for " + v + " in " + strings.Join(items, " "), body: body}
 }
 
@@ -1091,11 +1096,64 @@ func (g *g) cFor() node {
 	default:
 		head = fmt.Sprintf("for ((%s = 1; %s <= %d; %s += 1))", c, c, k, c)
 	}
+	g.inFor++
 	body := g.loopBody(k)
+	g.inFor--
 	// a body ending in a failing command stops the loop in the interpreter
 	// (known finding C20-cfor-stops-after-failing-body)
 	body = append(body, text(`echo "i=$`+c+`"`))
 	return loop{head: head, body: body}
+}
+
+// jumpNest renders two nested loops whose inner body leaves or continues
+// the outer loop at a chosen iteration, with output before and after, so
+// that break N / continue N are exercised on purpose.
+func (g *g) jumpNest() node {
+	g.spend(3)
+	v := g.pick([]string{"x", "y"}, "loopvar")
+	items := []string{g.cleanWord(), g.cleanWord(), g.cleanWord()}[:g.n(2, 3, "nitems")]
+	c := g.counter()
+	k := g.n(2, 3, "bound")
+	kw := g.pick([]string{"break", "continue"}, "jump")
+	lvl := g.pick([]string{" 2", " 2", " 1", ""}, "jumplevel")
+	var trig string
+	if g.pct(60, "trigform") {
+		trig = "[ $" + c + " -eq " + strconv.Itoa(g.n(1, k, "trigat")) + " ]"
+	} else {
+		trig = `[[ $` + v + ` == ` + items[g.n(0, len(items)-1, "trigitem")] + ` ]]`
+	}
+	saved := g.mult
+	g.mult *= len(items) * k
+	g.loops += 2
+	g.depth += 2
+	g.inFor++
+	defer func() { g.inFor-- }()
+	inner := list{
+		text(c + "=$((" + c + " + 1))"),
+		text(`echo "in $` + v + ` $` + c + `"`),
+	}
+	if g.pct(50, "jumpif") {
+		inner = append(inner, ifClause{conds: []node{text(trig)}, thens: []list{{text(kw + lvl)}}})
+	} else {
+		inner = append(inner, binary{"&&", text(trig), text(kw + lvl)})
+	}
+	if g.pct(40, "innerextra") && g.room(4) {
+		inner = append(inner, g.stmt(true))
+	}
+	inner = append(inner, text(`echo "tail $`+c+`"`))
+	g.depth--
+	g.loops--
+	outer := list{
+		list2{text(c + "=0"), loop{head: "while [ $" + c + " -lt " + strconv.Itoa(k) + " ]", body: inner}},
+	}
+	if g.pct(40, "outerextra") && g.room(4) {
+		outer = append(outer, g.stmt(true))
+	}
+	outer = append(outer, text(`echo "after $`+v+`"`))
+	g.depth--
+	g.loops--
+	g.mult = saved
+	return loop{head: "for " + v + " in " + strings.Join(items, " "), body: outer}
 }
 
 func (g *g) caseStmt() node {
@@ -1138,8 +1196,9 @@ func (g *g) subshell() node {
 	g.spend(1)
 	g.sub = true
 	g.inSub++
-	savedLoops, savedPure := g.loops, g.pure
-	g.loops, g.pure = 0, 0
+	savedLoops, savedPure, savedFor := g.loops, g.pure, g.inFor
+	g.loops, g.pure, g.inFor = 0, 0, 0
+	defer func() { g.inFor = savedFor }()
 	body := g.nested(1, 3, false)
 	if g.pct(25, "subexit") {
 		body = append(body, text("exit "+g.intLit()))
@@ -1459,9 +1518,11 @@ func (g *g) pipeline() node {
 	single := g.pct(35, "single")
 	g.inPipe++
 	g.inSub++
-	savedLoops, savedPure := g.loops, g.pure
+	savedLoops, savedPure, savedFor := g.loops, g.pure, g.inFor
 	g.loops = 0
 	g.pure = 0
+	g.inFor = 0
+	defer func() { g.inFor = savedFor }()
 	g.depth++
 	var n node = g.producer(single)
 	if !single && g.pct(35, "midstage") {
@@ -1545,7 +1606,7 @@ func (g *g) leaf() node {
 		return g.arithCmd()
 	case k == 6 && g.loops > 0:
 		return g.jump()
-	case k == 7 && g.inFunc && g.pure == 0 && !(g.inSub > 0 && vh.Excluded(FindSubReturn)):
+	case k == 7 && g.inFunc && g.pure == 0 && !(g.inSub > 0 && vh.Excluded(FindSubReturn)) && !g.noLeave():
 		g.spend(1)
 		return text("return " + g.intLit())
 	case k == 8:
@@ -1622,8 +1683,9 @@ func (g *g) funcDecl() node {
 	g.io, g.stderr, g.pipe, g.sub = false, false, false, false
 	g.mult = 1
 	g.inFunc = true
-	savedLoops := g.loops
-	g.loops = 0
+	savedLoops, savedFor := g.loops, g.inFor
+	g.loops, g.inFor = 0, 0
+	defer func() { g.inFor = savedFor }()
 	g.depth++
 	body := list{}
 	if g.pct(60, "fnlocal") {
@@ -1648,6 +1710,11 @@ func (g *g) funcDecl() node {
 	g.io, g.stderr, g.pipe, g.sub = g.io || sio, g.stderr || sstderr, g.pipe || spipe, g.sub || ssub
 	return funcDecl{name: name, kw: g.pct(15, "fnkw"), body: body}
 }
+
+// noLeave reports whether return and exit must be kept out: inside a for
+// loop the interpreter goes on assigning the loop variable (or runs the
+// post expression) after them (finding).
+func (g *g) noLeave() bool { return g.inFor > 0 && vh.Excluded(FindForVarRet) }
 
 func (g *g) exitStmt() node {
 	g.spend(1)
@@ -1735,7 +1802,12 @@ func (g *g) stmt(loopBody bool) node {
 		case k <= 21 && g.room(12) && g.depth < 3:
 			return g.forIn()
 		case k == 22 && g.room(12) && g.depth < 3 && mut:
+			if g.room(40) && g.depth < 2 && g.pct(60, "jumpnest") {
+				return g.jumpNest()
+			}
 			return g.cFor()
+		case k == 23 && g.room(40) && g.depth < 2 && mut:
+			return g.jumpNest()
 		case k <= 24:
 			return g.caseStmt()
 		case k <= 26 || len(g.funcs) > 0 && k >= 41 && k <= 43:
@@ -1768,7 +1840,7 @@ func (g *g) stmt(loopBody bool) node {
 				return g.err2out()
 			}
 			return g.toStderr()
-		case k == 44 && mut:
+		case k == 44 && mut && !g.noLeave():
 			if g.inFunc && !(g.inSub > 0 && vh.Excluded(FindSubReturn)) {
 				return g.returnStmt()
 			}
